@@ -17,7 +17,7 @@ RULE = sqlmon.RULE_HISTORIES + ' Worker messages are duplicated / late / stale b
 ASSUMPTIONS = sqlmon.COMMON_ASSUMPTIONS
 SHARDS = {'quick': 4, 'thorough': 16}
 TIMEOUT = {'quick': 900, 'thorough': 3600}
-FLOORS = {'scripted_stale_attempt_then_deactivation': 20, 'fallbacks_to_ready_checked': 30, 'job_state_transitions': 300, 'job_state_edges': 8, 'duplicate_or_late_completions': 20, 'sql_routine:mark_job_complete': 100, 'histories_free_of_known_patterns': 50}
+FLOORS = {'scripted_stale_attempt_then_deactivation': 12, 'scripted_creating_parent_at_commit': 8, 'scripted_creating_parent_then_success': 5, 'fallbacks_to_ready_checked': 30, 'job_state_transitions': 300, 'job_state_edges': 8, 'duplicate_or_late_completions': 20, 'sql_routine:mark_job_complete': 100, 'histories_free_of_known_patterns': 50}
 
 
 class Tallies(Monitor):
@@ -52,6 +52,8 @@ async def scripted(runner, w, fz, rng):
     user = 'alice'
     ud = userdata(user)
     fe = w.fe
+    if rng.random() < 0.4:
+        return await scripted_creating_parent(runner, w, fz, rng)
     n = rng.choice([2, 2, 3])
     bid = await fe._create_batch({'billing_project': 'bp-a', 'token': 'c04s', 'n_jobs': n}, ud, w.db)
     fz.batches[bid] = {'user': user, 'token': 'c04s', 'groups': {0}, 'cancelled': set(), 'deleted': False}
@@ -88,12 +90,68 @@ async def scripted(runner, w, fz, rng):
     await A.deactivate(rng.choice(['not_responding', 'preempted', 'terminated']), w.now_ms())  # judged by the edge monitor at this commit
 
 
+async def scripted_creating_parent(runner, w, fz, rng):
+    """a job of a later update depends on a job-private job that is still Creating when the later update is committed; the
+    canceller sweeps, the VM comes up, the parent runs and succeeds.  The child must stay Pending until then ("a Pending job never
+    starts or completes") and nothing terminal may be left."""
+    from batch.front_end.validate import validate_and_clean_jobs
+    from vf.world.oracles import View
+    from vf.world.world import userdata
+
+    ctx = runner.ctx
+    user = 'alice'
+    ud = userdata(user)
+    fe = w.fe
+    bid = await fe._create_batch({'billing_project': 'bp-a', 'token': 'c04c', 'n_jobs': 1}, ud, w.db)
+    fz.batches[bid] = {'user': user, 'token': 'c04c', 'groups': {0}, 'cancelled': set(), 'deleted': False}
+    u1, _, _ = await fe._create_batch_update(bid, 'c04c', 1, 0, user, w.db)
+    jobs = [{'job_id': 1, 'process': {'type': 'docker', 'command': ['true'], 'image': 'u'}, 'resources': {'machine_type': 'n1-standard-1', 'preemptible': True, 'storage': '1Gi'}}]
+    validate_and_clean_jobs(jobs)
+    await fe._create_jobs(ud, jobs, bid, u1, w.fe_app)
+    await fe._commit_update(w.fe_app, bid, u1, user, w.db)
+    await w.jpim.create_instances_loop_body()
+    await fz._drain()
+    for i in w.jpim.name_instance.values():
+        w.instances.setdefault(i.name, i)
+    fz.sync_attempts_from_db()
+    if View(w.engine).jobs[(bid, 1)]['state'] != 'Creating':
+        ctx.count('scripted_setup_incomplete')
+        return
+    u2, _, _ = await fe._create_batch_update(bid, 'c04c-2', 1, 0, user, w.db)
+    js = [{'job_id': 1, 'absolute_parent_ids': [1], 'always_run': rng.random() < 0.3, 'process': {'type': 'docker', 'command': ['true'], 'image': 'u'},
+           'resources': {'cpu': '1', 'memory': 'standard', 'storage': '1Gi'}}]
+    validate_and_clean_jobs(js)
+    await fe._create_jobs(ud, js, bid, u2, w.fe_app)
+    await fe._commit_update(w.fe_app, bid, u2, user, w.db)
+    ctx.count('scripted_creating_parent_at_commit')
+    await w.create_instance('standard', cores=4)
+    await w.canceller.cancel_cancelled_ready_jobs_loop_body()
+    await w.pools['standard'].scheduler.schedule_loop_body()
+    await fz._drain()
+    fz.sync_attempts_from_db()
+    # the VM comes up, the parent starts and succeeds
+    for inst in list(w.jpim.name_instance.values()):
+        if inst.state == 'pending':
+            await inst.activate('10.9.0.%d' % (len(w.instances) + 1), w.now_ms())
+    await w.jpim.schedule_jobs_loop_body()
+    await fz._drain()
+    fz.sync_attempts_from_db()
+    for a in list(fz.attempts.values()):
+        row = w.engine.tables['attempts'].pk_get(a['batch_id'], a['job_id'], a['attempt_id'])
+        if a['batch_id'] == bid and row is not None and row['end_time'] is None and fz._instance_of(a) is not None and fz._instance_of(a).state == 'active':
+            now = w.now_ms()
+            st = {'batch_id': bid, 'job_id': a['job_id'], 'attempt_id': a['attempt_id'], 'job_group_id': 0, 'state': 'succeeded', 'start_time': now, 'end_time': now + 1, 'status': {}, 'resources': []}
+            await w.dm.job_complete(fz._worker_request(fz._instance_of(a), {'status': st}))
+    if View(w.engine).jobs[(bid, 1)]['state'] == 'Success':
+        ctx.count('scripted_creating_parent_then_success')
+
+
 def run(ctx):
     from vf.world.patterns import Patterns
     from vf.world.run import HistoryRunner
 
     p = Patterns()
-    r = HistoryRunner(ctx, [p, sqlmon.EdgeMonitor(p, check_cancel=False), Tallies(p)], cfg={'weights': dict(sqlmon.WEIGHTS_RUN), 'job_private': False},
+    r = HistoryRunner(ctx, [p, sqlmon.EdgeMonitor(p, check_cancel=False), Tallies(p)], cfg={'weights': dict(sqlmon.WEIGHTS_RUN)},
                       n_ops=ctx.pick(15, 30), setup=scripted)
     for i, rng in ctx.cases(ctx.pick(15, 100), 'scripted'):
         res = r.run_case(i, rng)
